@@ -209,7 +209,7 @@ theorem sim_call (n : Nat) (hL : SimL F isLocal U Ext P P' n) (hF : SimF F U P P
       | ok vs w' =>
         simp only [Sem.apply, (L.ext x hext).1, (L.ext x hext).2]
   · -- monomorphic function: same name, the instance at the empty substitution
-    have hfc' : findCallee F x = some callee := by simp [findCallee, hfc]
+    have hfc' : findCallee F x = some callee := findCallee_of_findFn hfc
     have : resolveCallP F (substTy σ ty) (.var x (substTy σ fty)) (monoEs F σ args).1 =
         (.call (substTy σ ty) (.var x (substTy σ fty)) (monoEs F σ args).1, []) := by
       simp [resolveCallP, hfc', hng]
@@ -226,7 +226,7 @@ theorem sim_call (n : Nat) (hL : SimL F isLocal U Ext P P' n) (hF : SimF F U P P
         rw [specName_nil, hm.2] at this
         exact this
   · -- generic function: the call is renamed to the instance
-    have hfc' : findCallee F x = some callee := by simp [findCallee, hfc]
+    have hfc' : findCallee F x = some callee := findCallee_of_findFn hfc
     have : resolveCallP F (substTy σ ty) (.var x (substTy σ fty)) (monoEs F σ args).1 =
         (.call (substTy σ ty) (.var (specName callee.name cs) (substTy σ fty)) (monoEs F σ args).1, [.req callee.name cs]) := by
       simp [resolveCallP, hfc', hg, hu1, hu2, hany]
